@@ -885,9 +885,11 @@ def drive(rep, runs, claims=None, variants=default_variants):
             for c in e.cases:
                 seen.setdefault(common.stable_hash(c), c)
             cases = list(seen.values())
-        if run.get("sample") and len(cases) > run["sample"]:
+        cap = run.get("sample") or (4 * run["num"] if run["mode"] == "sim" else None)
+        if cap and len(cases) > cap:
+            # (the simulator evaluates the emitting invariant on every successor it generates, not only on the chosen path)
             rnd = _random.Random(rep.seed * 7919 + len(cases))
-            cases = rnd.sample(cases, run["sample"])
+            cases = rnd.sample(cases, cap)
         rep.note("%s: %d behaviours emitted by TLC, %d replayed" % (run["name"], len(e.cases), len(cases)))
         for c in cases:
             jobs.append((c, variants(c, idx)))
